@@ -116,6 +116,20 @@ class Sym(object):
         """from here on the path may execute at most `extra` further steps; more raises CostLimitExceeded (None: no limit)"""
         self.I.step_limit = None if extra is None else self.I.path_steps + extra
 
+    def approximate_numerics(self):
+        """from here on, numbers read from symbolic text by float() / Decimal() get opaque values and their value-dependent
+        cost is charged (psx/numerics.py); only cost obligations may follow"""
+        self.I.options["approximate_numerics"] = True
+        self.job.bounds["approximate_numerics"] = "opaque values, lower-bound cost charges in units of 50 us CPU (psx/numerics.py)"
+
+    def charged(self):
+        """value-dependent cost charged on this path so far, in units of 50 microseconds of CPU time (lower bound)"""
+        from .values import mkint
+        total = 0
+        for t, what in self.I.charges:
+            total = total + t
+        return mkint(total)
+
     def note_max(self, key, value):
         self.job.notes[key] = max(self.job.notes.get(key, value), value)
 
